@@ -112,6 +112,19 @@ func Stdout() string               { return "" }
 func Symbolic() bool               { return false }
 func Event() int                   { return 0 }
 func Steps() int                   { return 0 }
+
+// Cost runs f and returns a deterministic measure of the work it did: under
+// the engine the number of SSA instructions executed, natively the number of
+// heap allocations (a wall-clock-free proxy that grows with re-done work).
+// The two scales differ; harnesses only compare costs of one kind with each
+// other (growth ratios).
+func Cost(f func()) int {
+	var m0, m1 runtime.MemStats
+	runtime.ReadMemStats(&m0)
+	f()
+	runtime.ReadMemStats(&m1)
+	return int(m1.Mallocs - m0.Mallocs)
+}
 func ConcreteInt(v, lo, hi int) int { return v }
 func Logf(format string, a ...interface{}) {
 	fmt.Printf("  [harness] "+format+"\n", a...)
